@@ -143,6 +143,44 @@ class C20(Prop):
                         reqs.append(dict(chrom=n, start=s_, end=e_, bins=nb, summary=["mean", "min", "max"][nb % 3], exact=True, missing=-1, oob=-5))
                 jobs.append({"file": outp, "requests": reqs})
                 meta.append((f"{tag}{ci}", bed, sizes_m[n], items))
+        # genome-scale requests: spans of more than 2^24 and 2^25 bases (where single precision stops being exact for integers) cut
+        # into bins of integral width, with entries that start in the last 1–4 bases before a bin border far from the request start
+        gmeta = {}
+        for bed in (False, True):
+            r = rng.fork(f"genome{int(bed)}")
+            glen = 120000000
+            greqs = [(0, 3 << 24, 512), (0, 3 << 24, 3072), (5, 5 + (1 << 25), 1024), (1000, 1000 + (5 << 24), 640)]
+            ents = [(10, 20, 1.0)]
+            for (s_, e_, nb) in greqs:
+                w_ = (e_ - s_) // nb
+                for j in sorted({r.range(nb // 3 + 1, nb - 1) for _ in range(6)} | {nb - 1}):
+                    b_ = s_ + j * w_
+                    dl = r.choice([1, 2, 3, 4])
+                    ents.append((b_ - dl, b_ - dl + r.choice([1, 1, 2, 7]), float(r.choice([2, 3, 5, 7]))))
+            ents.sort()
+            if not bed:
+                flat = []
+                for it in ents:                      # bigWig values do not overlap
+                    if not flat or it[0] >= flat[-1][1]:
+                        flat.append(it)
+                ents = flat
+            tag = "gb" if bed else "gw"
+            sz = os.path.join(d, f"{tag}.sizes")
+            open(sz, "w").write(f"{CHROM}\t{glen}\n")
+            src = os.path.join(d, f"{tag}." + ("bed" if bed else "bedGraph"))
+            with open(src, "w") as f:
+                for (a, b, v) in ents:
+                    f.write(f"{CHROM}\t{a}\t{b}" + ("" if bed else f"\t{v}") + "\n")
+            outp = os.path.join(d, f"{tag}." + ("bb" if bed else "bw"))
+            subprocess.run([repo_bin("bedtobigbed" if bed else "bedgraphtobigwig"), src, sz, outp], capture_output=True, text=True)
+            if not os.path.exists(outp):
+                rep.notes.append("could not prepare the genome-scale file")
+                continue
+            reqs = [dict(chrom=CHROM, start=s_, end=e_, bins=nb, summary=["mean", "min", "max"][(i + int(bed)) % 3], exact=True, missing=-1, oob=-5)
+                    for i, (s_, e_, nb) in enumerate(greqs)]
+            jobs.append({"file": outp, "requests": reqs})
+            meta.append((tag, bed, glen, []))            # judged by genome_judge (interval arithmetic), not base by base
+            gmeta[tag] = ents
         jf, rf = os.path.join(d, "jobs.json"), os.path.join(d, "results.json")
         json.dump(jobs, open(jf, "w"))
         p = subprocess.run(["python3-vt", os.path.join(os.path.dirname(os.path.abspath(__file__)), "..", "py_values_driver.py"), PYMOD, jf, rf],
@@ -154,6 +192,9 @@ class C20(Prop):
         # model answers
         mcases = []
         for (k, bed, length, items), job in zip(meta, jobs):
+            if k in gmeta:
+                mcases.append(CaseT(f"py{k}", "pyvalues", ["bed" if bed else "wig"], [f"LEN 1"]))     # not for the per-base model
+                continue
             lines = [f"LEN {length}"]
             for it in items:
                 lines.append(f"E {it[0]} {it[1]}" if bed else f"V {it[0]} {it[1]} {f32bits(float(it[2]))}")
@@ -177,7 +218,11 @@ class C20(Prop):
                     rep.tag("reaches_outside")
                 if rq["bins"] is not None or rq["start"] < 0 or rq["end"] > length:
                     rep.nontrivial.add((k, qi))
-                bad = self.judge(rq, rr, bed, length, items, ml.get(qi))
+                if k in gmeta:
+                    rep.tag("span_over_2^24_bases")
+                    bad = self.genome_judge(rq, rr, bed, gmeta[k])
+                else:
+                    bad = self.judge(rq, rr, bed, length, items, ml.get(qi))
                 if ml.get(qi, "").startswith(f"P {qi} ok"):
                     nmodel += 1
                 if bad:
@@ -186,7 +231,7 @@ class C20(Prop):
                         seen.add(key)
                         rep.violation(f"py_{k}_{qi}.txt",
                                       f"# pybigtools.open(<file>).values({rq})\n# file: {'bigBed' if bed else 'bigWig'} on {CHROM} (length {length}) with "
-                                      f"{'entries' if bed else 'values'} {items}\n# {bad}\n# returned: {self.floats(rr)}\n# model: {ml.get(qi)}\n")
+                                      f"{'entries' if bed else 'values'} {gmeta.get(k, items)}\n# {bad}\n# returned: {self.floats(rr)}\n# model: {ml.get(qi)}\n")
         rep.coverage["requests_through_python_api"] = nreq
         rep.coverage["requests_answered_by_model"] = nmodel
         if len(rep.samples) < 3 and jobs:
@@ -197,6 +242,41 @@ class C20(Prop):
         if "exc" in rr:
             return rr["exc"]
         return [struct.unpack(">d", bytes.fromhex(x))[0] for x in rr["v"]]
+
+    def genome_judge(self, rq, rr, bed, ents):
+        """exact bins of integral width over a genome-scale span, by interval arithmetic (mean over the covered bases; bigBed =
+        coverage depth)"""
+        if "exc" in rr:
+            return "the call raised: " + rr["exc"]
+        got = self.floats(rr)
+        s, e, n = rq["start"], rq["end"], rq["bins"]
+        w = (e - s) // n
+        if len(got) != n:
+            return f"array has {len(got)} cells, expected {n}"
+        touched = {}
+        for (a, b, v) in ents:
+            for j in range(max(0, (a - s) // w), min(n - 1, (b - 1 - s) // w) + 1):
+                touched.setdefault(j, []).append((a, b, v))
+        for j, g in enumerate(got):
+            lo, hi = s + j * w, s + (j + 1) * w
+            segs = []
+            if j in touched:
+                pts = sorted({lo, hi} | {min(max(x, lo), hi) for (a, b, v) in touched[j] for x in (a, b)})
+                for x, y in zip(pts, pts[1:]):
+                    cov = [v for (a, b, v) in touched[j] if a <= x and y <= b]
+                    if cov:
+                        segs.append((y - x, float(len(cov)) if bed else cov[0]))
+            if not segs:
+                want = float(rq["missing"])
+            elif rq["summary"] == "mean":
+                want = sum(l * v for l, v in segs) / sum(l for l, v in segs)
+            elif rq["summary"] == "min":
+                want = min(v for l, v in segs)
+            else:
+                want = max(v for l, v in segs)
+            if not (g == want or abs(g - want) <= 1e-9 * max(1.0, abs(want))):
+                return f"exact bins of integral width {w}: bin {j} = [{lo},{hi}) reports {g}, expected {want}"
+        return None
 
     def judge(self, rq, rr, bed, length, items, mline):
         """None = fine; else what fails (oracle first, then the correspondence with the model)"""
